@@ -52,7 +52,10 @@ Definition fails_certainly (cfg : config) (e : env) (q : req) (o : obs) (k : con
   (enabled cfg k &&
    match k with
    | CLocal => o_target_is_local o || existsb (target_is_local (c_idna cfg) (c_aliases cfg)) (o_targets o)
-   | CDeny => match c_deny cfg with Some m => existsb m (o_targets o) | None => false end
+   | CDeny => match c_deny cfg with
+              | Some m => existsb (fun t => m t || m (strip_dot t)) (o_targets o)
+              | None => false
+              end
    | _ => false
    end).
 Definition passes_certainly (cfg : config) (e : env) (q : req) (o : obs) (k : control) : bool :=
